@@ -109,17 +109,27 @@ func vfC15RunMetric(c vfC15Case, ctx *vfCtx) *vfViolation {
 	if err != nil {
 		return vfFail("NewIVFIndex: %v", err)
 	}
-	if err := ivfSample.Train(nodes()[:len(data)/3]); err != nil {
+	sampleNodes := nodes()
+	if err := ivfSample.Train(sampleNodes[:len(data)/3]); err != nil {
 		return vfFail("ivf Train on a third of the data: %v", err)
 	}
 	kinds := []named{{"hnsw", hnsw}, {"hnsw0", hnsw0}, {"ivf", ivf}, {"pq", pq}, {"ivfpq", ivfpq}}
+	// every index gets ONE set of nodes, used for Train and then for Add (the usual flow: the library sees
+	// the same slices twice); the ground truth is computed from the pristine data by the flat index
+	own := map[string][]VectorNode{}
 	for _, k := range kinds {
-		if err := k.idx.Train(nodes()); err != nil {
+		own[k.name] = nodes()
+		if err := k.idx.Train(own[k.name]); err != nil {
 			return vfFail("%s Train on %d vectors: %v", k.name, len(data), err)
 		}
 	}
+	own["ivf(sample-trained)"] = sampleNodes
 	for _, k := range append(kinds, named{"flat", flat}, named{"ivf(sample-trained)", ivfSample}) {
-		for _, nd := range nodes() { // insertion order = generation order
+		ns := own[k.name]
+		if ns == nil {
+			ns = nodes()
+		}
+		for _, nd := range ns { // insertion order = generation order
 			if err := k.idx.Add(nd); err != nil {
 				return vfFail("%s Add: %v", k.name, err)
 			}
